@@ -105,5 +105,56 @@ check(abs(x - (w * np.array([0, 1, 2])).sum() / w.sum()) < 1e-15 and abs(y - (w 
       'com')
 check(all(math.isnan(v) for v in R.com([[0.0, 0.0]], [[False, False]])), 'com zero weight')
 
+# 5. box_cutouts / simple_measurements vs explicit loops
+d = rng.normal(size=(9, 11))
+P = [(0, 0), (10, 8), (5, 4), (1, 7), (10, 0)]
+for kshape in ((5, 5), (5, 7), (7, 5)):
+    ky, kx = kshape
+    cuts = R.box_cutouts(d, P, kshape)
+    km = np.zeros(kshape, bool)
+    for j in range(ky):
+        for i in range(kx):
+            km[j, i] = ((j - ky // 2) / (ky / 2)) ** 2 + ((i - kx // 2) / (kx / 2)) ** 2 <= 1.0
+    mi = R.simple_measurements('IRAF', cuts, km)
+    md = R.simple_measurements('DAO', cuts, km)
+    for n_, (x, y) in enumerate(P):
+        e = np.zeros(kshape)
+        for j in range(ky):
+            for i in range(kx):
+                yy, xx = y - ky // 2 + j, x - kx // 2 + i
+                if 0 <= yy < 9 and 0 <= xx < 11:
+                    e[j, i] = d[yy, xx]
+        check(np.array_equal(cuts[n_], e), f'box_cutouts {kshape} {(x, y)}')
+        check(md['peak'][n_] == d[y, x] and abs(md['flux'][n_] - e.sum()) < 1e-12 and md['npix'][n_] == ky * kx, 'dao simple')
+        sky = sum(e[j, i] for j in range(ky) for i in range(kx) if not km[j, i]) / max(1, (~km).sum())
+        tot = sx = sy = 0.0
+        pk = 0.0
+        npx = 0
+        for j in range(ky):
+            for i in range(kx):
+                v = e[j, i] - sky
+                if km[j, i] and v > 0:
+                    tot += v
+                    sx += v * i
+                    sy += v * j
+                    pk = max(pk, v)
+                    npx += 1
+        check(abs(mi['flux'][n_] - tot) < 1e-12 and abs(mi['peak'][n_] - pk) < 1e-12 and mi['npix'][n_] == npx, 'iraf simple')
+        if tot > 0:
+            check(abs(mi['xcentroid_in_box'][n_] - sx / tot) < 1e-12 and abs(mi['ycentroid_in_box'][n_] - sy / tot) < 1e-12,
+                  'iraf centroid')
+zero = R.simple_measurements('IRAF', np.zeros((1, 5, 5)), np.ones((5, 5), bool))
+check(math.isnan(zero['xcentroid_in_box'][0]) and zero['npix'][0] == 0, 'iraf empty box')
+
+# 6. grid_positions / grid_assign
+g = dict(ox=3, oy=2, px=11, py=15, ncols=4, nrows=3, n=10)
+pos = R.grid_positions(g)
+check(len(pos) == 10 and list(pos[0]) == [3, 2] and list(pos[5]) == [3 + 11, 2 + 15] and list(pos[9]) == [3 + 11, 2 + 30], 'grid_positions')
+for t, (x, y) in enumerate(pos):
+    for dx, dy in ((0, 0), (5.4, -7.4), (-5.4, 7.4), (2.5, 3.5)):
+        check(R.grid_assign([x + dx], [y + dy], g)[0] == t, f'grid_assign {t} {(dx, dy)}')
+check(list(R.grid_assign([3 + 22, -9.0, 3 + 44, float('nan'), 3 + 5.6], [2 + 30, 2.0, 2.0, 2.0, 2.0], g)) == [-1, -1, -1, -1, 1],
+      'grid_assign outside / unused node / nan / next node')
+
 print('selftest peaks ref:', 'FAILED' if fail else 'ok', f'({n} peak cases)')
 sys.exit(1 if fail else 0)
